@@ -99,6 +99,8 @@ def eqsym(ctx, P):
                     l0 = n["c"][1]
                     if l0 is not None and l0["k"] == "DeclRefExpr":
                         tgt, rhs = l0.get("d"), n["c"][2]
+                elif n["k"] == "CXXForRangeStmt" and n.get("d") and n.get("c") and n["c"][0] is not None:
+                    tgt, rhs = n.get("d"), n["c"][0]        # the loop variable ranges over one side's container
                 if tgt is None or tgt in side or rhs is None:
                     continue
                 sd, txt = path(rhs)
@@ -146,6 +148,64 @@ def eqsym(ctx, P):
                        "arguments of equals() changes what is compared" % (sorted(s1) or "neither", t1[:60],
                                                                             sorted(s2) or "neither", t2[:60]))
         ctx.ob("R-EQSYM", "%s: every parameter-derived comparison is symmetric" % short_sig, True, f.loc(), "")
+        # ---- predicates: a boolean atom (call / member call used as a truth value) that looks at one side only must
+        # have its mirror - the same call on the other side - somewhere in the function
+        atoms = {}
+
+        def leaves(e):
+            e = strip_casts(e)
+            if e is None:
+                return []
+            if e["k"] == "UnaryOperator" and e.get("op") == "!":
+                return leaves(e["c"][0])
+            if e["k"] == "CXXOperatorCallExpr" and e.get("op") == "!":
+                return leaves(e["c"][-1])
+            if e["k"] == "BinaryOperator" and e.get("op") in ("&&", "||"):
+                return leaves(e["c"][0]) + leaves(e["c"][1])
+            if e["k"] == "ParenExpr" and e.get("c"):
+                return leaves(e["c"][0])
+            return [e]
+        conds = []
+        for n in f.nodes():
+            if n["k"] == "IfStmt":
+                conds.append(n["c"][0])
+            elif n["k"] == "ConditionalOperator":
+                conds.append(n["c"][0])
+        # `!!a != !!b` (or ==) between mirrored values: afterwards a null test of one of them speaks for both
+        samenull = set()
+        for n, ops, (s1, t1), (s2, t2) in cmps:
+            if {frozenset(s1), frozenset(s2)} == {frozenset({"L"}), frozenset({"R"})} and t1 == t2 and t1.startswith("!!"):
+                samenull.add(t1[2:].strip("()"))
+        for c in conds:
+            for a in leaves(c):
+                if a["k"] not in ("CallExpr", "CXXMemberCallExpr"):
+                    continue
+                sd, txt = path(a)
+                if len(sd) != 1:
+                    continue
+                # the environment is shared by the two operands: a question put to it is not about one side
+                if "#.get_environment()" in txt and txt.count("#") == 1:
+                    continue
+                # a local the analysis could not attribute to one side (built from both operands) takes part
+                if any(x["k"] == "DeclRefExpr" and (f.decl(x) or {}).get("st") == "local" and x.get("d") not in side
+                       for x in walk(a)):
+                    continue
+                # null test of a value whose nullness was compared with its mirror's
+                if a["k"] == "CXXMemberCallExpr" and (f.decl(a) or {}).get("n", "").startswith("operator bool"):
+                    inner = txt.replace(".operator bool()", "").strip("()")
+                    if inner in samenull or any(inner in s_ or s_ in inner for s_ in samenull):
+                        continue
+                atoms.setdefault(txt, {}).setdefault(next(iter(sd)), a)
+        for txt, by_side in sorted(atoms.items()):
+            n_cmp += 1
+            if set(by_side) == {"L", "R"}:
+                continue
+            only = next(iter(by_side))
+            a = by_side[only]
+            ent = "%s: predicate `%s` is applied to both operands" % (short_sig, expr_str(f, a)[:80])
+            ctx.ob("R-EQSYM", ent, False, f.loc(a),
+                   "`%s` is tested on the %s operand only (normal form `%s`): equals(a, b) and equals(b, a) can disagree" % (
+                       expr_str(f, a)[:80], "left" if only == "L" else "right", txt[:80]))
     ctx.floor("R-EQSYM", "parameter-derived comparisons in ir::equals overloads", n_cmp, 60)
 
 
